@@ -315,13 +315,60 @@ func countReturns(fn *ssa.Function) int {
 	return n
 }
 
+// deferredTypeCheckCode: closures with the typeCheck signature, and their static callees in
+// the schema package that take the parser.
+func deferredTypeCheckCode(p *core.Program, parserT types.Type, tcSig *types.Signature) map[*ssa.Function]bool {
+	isParserPtr := func(t types.Type) bool {
+		pt, ok := t.Underlying().(*types.Pointer)
+		return ok && types.Identical(pt.Elem(), parserT)
+	}
+	// deferred code: closures with the typeCheck signature, and their static callees that take the parser
+	deferred := map[*ssa.Function]bool{}
+	var work []*ssa.Function
+	for _, fn := range p.KetoFuncs(schemaRel) {
+		if fn.Parent() != nil && tcSig != nil && core.SigIdentical(fn.Signature, tcSig) {
+			deferred[fn] = true
+			work = append(work, fn)
+		}
+	}
+	for len(work) > 0 {
+		fn := work[0]
+		work = work[1:]
+		core.Instrs(fn, func(_ *ssa.BasicBlock, _ int, ins ssa.Instruction) {
+			if ci, ok := ins.(ssa.CallInstruction); ok {
+				if sc := ci.Common().StaticCallee(); sc != nil && !deferred[sc] && core.FuncPkg(sc) != nil && core.RelPath(core.FuncPkg(sc).Path()) == schemaRel {
+					takes := false
+					for _, par := range sc.Params {
+						if isParserPtr(par.Type()) {
+							takes = true
+						}
+					}
+					if takes {
+						deferred[sc] = true
+						work = append(work, sc)
+					}
+				}
+			}
+		})
+	}
+	return deferred
+}
+
 // r114: loops over a relation's types in the type checks have no early exit
 // that is not an error report.
 func r114(c *Ctx) {
 	p, r := c.P, c.R
 	n := 0
+	parserT := p.LookupType(core.KetoMod+"/"+schemaRel, "parser")
+	tcT := p.LookupType(core.KetoMod+"/"+schemaRel, "typeCheck")
+	if parserT == nil || tcT == nil {
+		r.Undecide("R11.4", "", "anchor parser/typeCheck types", "", "not found")
+		return
+	}
+	tcSig, _ := tcT.Underlying().(*types.Signature)
+	deferred := deferredTypeCheckCode(p, parserT, tcSig)
 	for _, fn := range p.KetoFuncs(schemaRel) {
-		if !strings.Contains(core.FuncName(fn), "heck") {
+		if !deferred[fn] {
 			continue
 		}
 		// loops ranging over a []ast.RelationType
@@ -436,35 +483,7 @@ func r116(c *Ctx) {
 		pt, ok := t.Underlying().(*types.Pointer)
 		return ok && types.Identical(pt.Elem(), parserT)
 	}
-	// deferred code: closures with the typeCheck signature, and their static callees that take the parser
-	deferred := map[*ssa.Function]bool{}
-	var work []*ssa.Function
-	for _, fn := range p.KetoFuncs(schemaRel) {
-		if fn.Parent() != nil && tcSig != nil && core.SigIdentical(fn.Signature, tcSig) {
-			deferred[fn] = true
-			work = append(work, fn)
-		}
-	}
-	for len(work) > 0 {
-		fn := work[0]
-		work = work[1:]
-		core.Instrs(fn, func(_ *ssa.BasicBlock, _ int, ins ssa.Instruction) {
-			if ci, ok := ins.(ssa.CallInstruction); ok {
-				if sc := ci.Common().StaticCallee(); sc != nil && !deferred[sc] && core.FuncPkg(sc) != nil && core.RelPath(core.FuncPkg(sc).Path()) == schemaRel {
-					takes := false
-					for _, par := range sc.Params {
-						if isParserPtr(par.Type()) {
-							takes = true
-						}
-					}
-					if takes {
-						deferred[sc] = true
-						work = append(work, sc)
-					}
-				}
-			}
-		})
-	}
+	deferred := deferredTypeCheckCode(p, parserT, tcSig)
 	// fields overwritten during parsing: a Store to the field (outside the deferred code and constructors)
 	// whose value is not an append to the field itself
 	overwritten := map[*types.Var]bool{}
